@@ -69,7 +69,7 @@ def value(kind, iv):
     """an argument of 'any type': kind 0 -> the (symbolic) int iv, else a concrete sample of another type"""
     if kind == 0:
         return iv
-    for k, v in ((1, True), (2, 'E0_B'), (3, 'nope'), (4, b'ab'), (5, 1.5), (6, None)):
+    for k, v in ((1, True), (2, 'E0_B'), (3, 'nope'), (4, b'ab'), (5, 1.5), (6, None), (8, 'E0_A'), (9, 'E0_C')):
         if kind == k:
             return v
     return [1]
@@ -123,7 +123,11 @@ def finish(r_impl, r_ref, obs_after, obs_before, model_obs):
     if r_impl[0] == 'rej':
         if obs_after != obs_before:
             _LAST['why'] = 'rejected-but-state-changed'
-        return obs_after == obs_before                      # rejected -> message unchanged
+            return False                                    # rejected -> message unchanged
+        if r_ref[0] == 'ok':
+            _LAST['why'] = 'rejected-what-the-model-accepts'
+            return False                                    # the reference model performs the operation: states differ
+        return True
     if r_ref[0] != 'ok':
         _LAST['why'] = 'accepted-what-the-model-forbids'
         return False                                        # accepted something the reference model forbids
